@@ -2,6 +2,7 @@ package builder
 
 import (
 	"go/types"
+	"sort"
 
 	"github.com/dave/jennifer/jen"
 	"github.com/jmattheis/goverter/config"
@@ -141,3 +142,14 @@ var (
 	emptyMapping *config.FieldMapping = &config.FieldMapping{}
 	emptyFields                       = map[string]struct{}{}
 )
+
+// sortedKeys returns the keys in a stable order, so that the reported
+// diagnostic does not depend on the map iteration order.
+func sortedKeys(m map[string]struct{}) []string {
+	keys := make([]string, 0, len(m))
+	for key := range m {
+		keys = append(keys, key)
+	}
+	sort.Strings(keys)
+	return keys
+}
